@@ -940,7 +940,63 @@ func checkFloater(c floaterCase, o *kit.Obs) error {
 	if !(math.Abs(sumAbs-math.Abs(poly)) <= 1e-6*scale*scale) {
 		return fmt.Errorf("the 2D triangles have total area %.12g but the boundary polygon has area %.12g (overlap or flip)", sumAbs, math.Abs(poly))
 	}
+	// (d) ExtendBoundaryUVs (documented for boundaries centred at the origin, as the library's own are): it moves the
+	// tips of boundary ears outwards so that "these triangles are not highly stretched or even fully degenerate":
+	// every coordinate stays finite, nothing flips, and an ear that was flat in the plane (three prescribed points
+	// on a straight side of the square) gets positive area when it has area in 3D
+	if c.Boundary == "circle" || c.Boundary == "pnorm" || c.Boundary == "square" {
+		ext := model3d.NewCoordMap[model2d.Coord]()
+		res.Range(func(k model3d.Coord3D, v model2d.Coord) bool {
+			ext.Store(k, v)
+			return true
+		})
+		model3d.ExtendBoundaryUVs(b.m, ext, 0.1*scale)
+		uv2 := make([]kit.V2, len(s.verts))
+		for vi, v := range s.verts {
+			p, ok := uvOf(ext, v)
+			if !ok || !p.Finite() {
+				return fmt.Errorf("after ExtendBoundaryUVs vertex %v has no finite parameter value (%v, present=%v); before: %v", v, p, ok, uv[vi])
+			}
+			uv2[vi] = p
+		}
+		for fi, f := range s.f {
+			a, bb, cc := uv2[f[0]], uv2[f[1]], uv2[f[2]]
+			a2 := sign * kit.Orient2(a, bb, cc)
+			longest := math.Max(a.Dist(bb), math.Max(bb.Dist(cc), a.Dist(cc)))
+			if longest > 0 && a2/longest < -1e-6*scale {
+				return fmt.Errorf("after ExtendBoundaryUVs face %d is flipped in the plane: %v %v %v", fi, a, bb, cc)
+			}
+			before := sign * kit.Orient2(uv[f[0]], uv[f[1]], uv[f[2]])
+			t3 := s.tris[fi]
+			area3 := t3[1].Sub(t3[0]).Cross(t3[2].Sub(t3[0])).Norm()
+			l3 := math.Max(t3[0].Dist(t3[1]), math.Max(t3[1].Dist(t3[2]), t3[0].Dist(t3[2])))
+			if s.onBd[f[0]] && s.onBd[f[1]] && s.onBd[f[2]] && math.Abs(before) <= 1e-12*scale*scale && area3 > 1e-3*l3*l3 && isEar(s, f) && !(a2 > 0) {
+				return fmt.Errorf("ExtendBoundaryUVs left the boundary ear %d flat in the plane (%v %v %v) although it has area in 3D", fi, a, bb, cc)
+			}
+		}
+		o.Label("extend-boundary-uvs")
+	}
 	return nil
+}
+
+// isEar: the three vertices are consecutive on the boundary loop.
+func isEar(s *surf, f [3]int) bool {
+	n := len(s.loop)
+	pos := map[int]int{}
+	for i, v := range s.loop {
+		pos[v] = i
+	}
+	for k := 0; k < 3; k++ {
+		i, ok := pos[f[k]]
+		if !ok {
+			return false
+		}
+		prev, next := s.loop[(i+n-1)%n], s.loop[(i+1)%n]
+		if (prev == f[(k+1)%3] && next == f[(k+2)%3]) || (prev == f[(k+2)%3] && next == f[(k+1)%3]) {
+			return true
+		}
+	}
+	return false
 }
 
 // ---------------------------------------------------------------------------
@@ -1306,6 +1362,19 @@ func checkMapFn(c atlasCase, o *kit.Obs) error {
 	if len(a.uv) != n {
 		o.Skip("atlas-incomplete (judged by the atlas clause)")
 		return nil
+	}
+	if c.QSeed%3 == 0 {
+		// a map of the caller's own making: the atlas flipped to the image convention (v -> lo + hi - v), so that every
+		// UV triangle is clockwise; the lookup is by position, not by winding
+		mirrored := model3d.MeshUVMap{}
+		for tri, uv := range a.uv {
+			for j := range uv {
+				uv[j].Y = a.lo[1] + a.hi[1] - uv[j].Y
+			}
+			mirrored[tri] = uv
+		}
+		a.uv = mirrored
+		o.Label("uv:mirrored(clockwise)")
 	}
 	fn := a.uv.MapFn()
 	lo3, hi3 := bbox(a.b.ts)
